@@ -59,6 +59,12 @@ def firenow_cases(D):
     # a forced reconnect on a LIVE connection is in its backoff; a fire-now command (served at once by the old transport) must
     # still fast-forward it
     out.append(("forced-backoff-firenow-while-connected", "conn %%s mode=conc lazy=1 window=%d %s script=cmd/1/ok/0/nowait;settle;force/2/nowait;settle;cmd/3/ok/1/nowait;settle;awaitall;settle" % (D, base)))
+    # a fire-now request must die with the sequence it was made for, however that sequence ends: sequence 2 (fast-forwarded by
+    # command 2) ends with a fatal dial / a fatal connect callback; the plain command 3 then starts sequence 3, whose delay
+    # must run out
+    for how, dials, conns in (("fatal-dial", "ok,fatal,ok", "ok,ok"), ("fatal-onconnect", "ok,ok,ok", "ok,fatal,ok")):
+        out.append(("stale-firenow-after-%s" % how, "conn %%s mode=seq lazy=1 window=%d dials=%s conns=%s script=cmd/1/ok/0/nowait;settle;awaitall;disconnect;settle;cmd/2/ok/1/nowait;settle;awaitall;settle;cmd/3/ok/0/nowait;longsettle/%d;awaitall;settle" % (D, dials, conns, D + 90)))
+    out.append(("stale-firenow-after-fatal-first", "conn %%s mode=seq lazy=1 firstdelay=%d window=%d dials=fatal,ok conns=ok script=cmd/1/ok/1/nowait;settle;awaitall;settle;cmd/2/ok/0/nowait;longsettle/%d;awaitall;settle" % (D, D, D + 90)))
     out.append(("window-zero", "conn %s mode=seq lazy=1 window=0 dials=ok conns=ok script=cmd/1/ok/0/nowait;settle;disconnect;settle;cmd/2/ok/0/nowait;longsettle/90;awaitall;settle"))
     out.append(("forced-initial-backoff", "conn %%s mode=seq lazy=1 forcebackoff=1 window=%d %s script=cmd/1/ok/1/nowait;settle;awaitall;settle" % (D, base)))
     # the handler is slow to announce: fire-now commands arrive while the sequence is inside OnDisconnected (the timer does not
